@@ -228,7 +228,7 @@ def check(run, ctx):
             run.ok(W4, f"{name} single walker")
     f = repo.func(f"{ORCH}.Orchestrator.lint_directory")
     loop_ok = False
-    for n in ast.walk(f.node):
+    for n in inline.flat_nodes(repo, f):   # the loop may live in a private helper (parameters substituted by the call's arguments)
         if isinstance(n, ast.For) and contains(n, lambda x: is_call_named(x, "lint_file")):
             it = n.iter
             # iterates the collected list unfiltered
